@@ -2165,10 +2165,11 @@ CLAMP_PINS = [("lib.rs", "clamp", "`value.clamp(min, max)` (num::Clamp)", "c71da
               ("lib.rs", "clamp_min_assign", "`value.clamp_min_assign(min)`", "fe7a9ecd60fb3a2b")]
 
 UNTRANSLATED_CLAMP = [
-    "`impl_clamp!` / `impl_is_within_bounds!` at `Luma` (one component), `Cam16` (six) and the six partial CAM16 types (`$name` inside `make_partial_cam16!`):",
-    "  the same macro bodies, translated here at every three-component invocation; their bound tables are extracted data (Gen/Bounds.lean, C03_Clamp)",
-    "`Alpha<C, T>` (`alpha/alpha.rs`: colour and alpha clamped separately), `[T]` slices (`lib.rs`: `for_each`), `FromColor` / `TryFromColor`",
-    "  (`convert/*.rs`: trait-dispatched `from_color_unclamped` followed by `clamp` / `is_within_bounds`): C03_Clamp law-free theorems + correspondence run",
+    "`impl_clamp!` / `impl_is_within_bounds!` at `Luma` (one component) and `Cam16` (six): the same macro bodies, translated here at every three-component invocation",
+    "  (the lowering represents a colour struct as `V3 α`); their bound tables are extracted data (Gen/Bounds.lean, C03_Clamp).  The six partial CAM16 types (`$name` inside",
+    "  `make_partial_cam16!`) are translated by tools/rust2lean_more.py (Gen/BodiesClampX.lean, Tie_ClampX.lean)",
+    "`Alpha<C, T>` (`alpha/alpha.rs`), `[T]` slices (`lib.rs`), `FromColor` / `TryFromColor` (`convert/*.rs`): trait-generic glue, translated by tools/rust2lean_glue.py with",
+    "  every trait-dispatched callee as a parameter (Gen/BodiesAlpha.lean, Gen/BodiesConvert.lean; Tie_Alpha.lean, Tie_Convert.lean)",
     "`num::Clamp` / `num::ClampAssign` for f32/f64/integers (`f32::clamp`, `f32::max`, `f32::min`, `Ord::..`) and the lib.rs wrappers `clamp`, `clamp_min`,",
     "  `clamp_assign`, `clamp_min_assign` (pinned by digest): per-type primitives, read as `Clamp.clampV`, `Clamp.clampMinV`, `Clamp.clampMaxV` (order-only model)",
     "`BoolMask::from_bool`, `Select::select` for `bool`: the identity / `if`",
@@ -2283,11 +2284,13 @@ def bodies_ops(read_src):
     return out
 
 UNTRANSLATED_OPS = [
-    "the operator macros at `Luma` (one component) and the six partial CAM16 types (`$name` inside `make_partial_cam16!`): the same macro bodies, translated",
-    "  here at every invocation for a three-component colour type; which type gets which macro with which components is extracted data (Gen/Ops.lean, C10_Ops)",
-    "`Alpha<C, T>` / `PreAlpha<C>` forwarding impls (alpha/alpha.rs, blend/pre_alpha.rs), the `[T]` slice impls of lib.rs (`for color in self { .. }`), the",
-    "  `Alpha` arms of `impl_lab_color_schemes!`: trait-dispatched calls on a generic colour; C10_LawFree proves them against the model, the oracle compares bits",
-    "`SaturatingAdd` / `SaturatingSub` arms of `impl_color_add!` / `impl_color_sub!` (integer components; outside C10's quantifier)",
+    "the operator macros at `Luma` (one component; the lowering represents a colour struct as `V3 α`): the same macro bodies, translated here at every invocation for a",
+    "  three-component colour type; which type gets which macro with which components is extracted data (Gen/Ops.lean, C10_Ops).  The six partial CAM16 types (`$name`",
+    "  inside `make_partial_cam16!`) are translated by tools/rust2lean_more.py (Gen/BodiesOpsX.lean, Tie_OpsX.lean)",
+    "`Alpha<C, T>` forwarding impls (alpha/alpha.rs) and the `[T]` slice impls of lib.rs (`for color in self { .. }`): trait-generic glue, translated by",
+    "  tools/rust2lean_glue.py with the colour's operator as a parameter (Gen/BodiesAlpha.lean, Tie_Alpha.lean).  Still law-free theorems + oracle only: `PreAlpha<C>`",
+    "  (blend/pre_alpha.rs; same text shape and model functions as `Alpha`), the `Alpha` arms of `impl_lab_color_schemes!`",
+    "`SaturatingAdd` / `SaturatingSub` arms of `impl_color_add!` / `impl_color_sub!` (integer components; outside C10's quantifier; their `Alpha` forwarding is in Tie_Alpha)",
     "`num::Clamp` / `ClampAssign` / `MinMax` for f32/f64 (`f32::clamp`, `f32::max`, `f32::min`) and the lib.rs wrappers `clamp`, `clamp_assign`, `clamp_min_assign`",
     "  (pinned by digest): per-type primitives, read as `Scalar.clamp`, `Scalar.max`, `Scalar.min` as Ops.lean does; `lazy_select!` for `bool` masks: `if`",
     "`Hue + T`, `Hue - Hue`, `Hue += T` (hues.rs `make_hues!`): the stored angle, translated and tied in the family `hue` (Tie_Hue.lean)",
@@ -2593,8 +2596,8 @@ def bodies_stim(read_src):
     return out
 
 UNTRANSLATED_STIM = [
-    "`impl<T> IntoStimulus<T> for T` (the identity), `FromStimulus` (blanket: `other.into_stimulus()`, read as the call it forwards to),",
-    "  `into_format` on colours (component-wise map: C06 law-free theorem + correspondence run)",
+    "`impl<T> IntoStimulus<T> for T` (the identity); the blanket `FromStimulus` and `into_format` / `from_format` of `Rgb`, `Luma` and their `Alpha` forms are",
+    "  translated by tools/rust2lean_glue.py (family `format`: Gen/BodiesFormat.lean, Tie_Format.lean: the component-wise map, instantiated with these arms)",
     "what the language defines (per-type primitives, read as definitions of PaletteModel/Stimulus.lean and compared with the hardware on every run):",
     "  `f32/f64::min`, `max`, `clamp`, `round`, `recip`; the casts `f32 as f64` (Stim.f32ToF64), `f64 as f32` (Stim.f64ToF32), `uN as f64` for N >= 32",
     "  (Stim.natToF64), `f64 as uN` (Stim.f64CastNat, saturating), `f32 as u8`, `u8/u16 as f32/f64`, `uA as uB` (core Lean's conversions);",
